@@ -35,10 +35,11 @@ type errChain struct {
 	Losses  []errLoss
 	Funcs   map[*ssa.Function]bool // in-module functions on the return chain
 	Leaves  int
+	DCSOps  map[string]bool // coordination operations (methods of dcs.DCS) whose error can reach the value
 }
 
 func newErrChain(c *Check) *errChain {
-	return &errChain{p: c.p, c: c, seenFn: map[string]bool{}, seenVal: map[ssa.Value]bool{}, Funcs: map[*ssa.Function]bool{}}
+	return &errChain{p: c.p, c: c, seenFn: map[string]bool{}, seenVal: map[ssa.Value]bool{}, Funcs: map[*ssa.Function]bool{}, DCSOps: map[string]bool{}}
 }
 
 var errorIface = types.Universe.Lookup("error").Type().Underlying().(*types.Interface)
@@ -260,6 +261,11 @@ func (e *errChain) call(call *ssa.Call, idx int, depth int) {
 			e.val(o, depth)
 		}
 		return
+	}
+	if cc := call.Common(); cc.IsInvoke() && typeShort(cc.Value.Type()) == "dcs.DCS" {
+		e.DCSOps[cc.Method.Name()] = true
+		e.Leaves++
+		return // the client below the interface is C15.MAP's subject
 	}
 	callees := p.Callees(call)
 	if len(callees) == 0 {
